@@ -314,13 +314,15 @@ def _c18_kernels(h):
             ctrl = [(exact(p[0]), exact(p[1])) for p in seg.ctrlpoints]
             h.case((d, typ), True)
             # projection parameters in [0, 1] (contract used by C18.contains-sound)
-            for q_ in ((pts[0][0] - 1, 7), (pts[-1][0] + 2, -3), (float(pts[d // 2][0]), 0.5)):
+            # (float query points: exact rational Newton iterations have exploding denominators)
+            for q_ in ((float(pts[0][0]) - 1, 7.0), (float(pts[-1][0]) + 2, -3.0), (float(pts[d // 2][0]), 0.5)):
                 params = Projection.point_on_curve(q_, seg)
                 h.ensure("projection-parameters-in-range", len(params) >= 1 and all(0 <= float(u) <= 1 for u in params), detail=f"deg {d} {typ}: {params}")
             # segment(t) in segment for regular segments
             for i in range(0, 13):
                 t = Fraction(i, 12)
                 p = seg(t)
+                p = (float(p[0]), float(p[1]))
                 try:
                     ok = p in seg
                 except Exception as e:  # noqa: BLE001
